@@ -57,6 +57,21 @@ def trivial(c, out):
     return not any(b >= 0 for a, b in c["ops"])
 
 
+def respell_names(rng, w):
+    """every file moves into src/ and each mention spells that path in one of several equal ways (src/f, src//f,
+    src/./f): equal names for the drivers and for the file system, so one name for the distributor as well"""
+    w["files"] = {b"src/" + k: v for k, v in w["files"].items()}
+    for pn, text in list(w["patches"].items()):
+        out = []
+        for l in text.split(b"\n"):
+            for pre in (b"--- a/", b"+++ b/"):
+                if l.startswith(pre):
+                    l = pre + rng.choice([b"src/", b"src/", b"src//", b"src/./", b"src/.//", b"src///"]) + l[len(pre):]
+                    break
+            out.append(l)
+        w["patches"][pn] = b"\n".join(out)
+
+
 def run(ctx):
     rng = ctx.rng
     thorough = ctx.tier == "thorough"
@@ -104,6 +119,9 @@ def run(ctx):
     nchain = 60 if thorough else 14
     for _ in range(nchain):
         w = C06.gen_chain(rng)
+        if rng.random() < 0.5:
+            respell_names(rng, w)
+            ctx.coverage["chain_pushes_with_respelled_names"] = ctx.coverage.get("chain_pushes_with_respelled_names", 0) + 1
         cfg = l3gen.default_cfg()
         r1, _, _ = l3gen.run_real(ctx.binary, w, cfg)
         for th in rng.sample([2, 3, 4, 5, 8, 16], 2):
